@@ -90,6 +90,8 @@ UNIVERSE = [
     _u('2', True, 'wl_surface', 4, 'attach', [['nil'], ['int', 0], ['int', 0]]),
     _u('2', True, 'wl_registry', 2, 'bind', [['int', 9], ['str', 'zz_u'], ['int', 1], ['new', None, 7]]),
     _u('2', True, 'zz_u', 7, 'poke', [['nil'], ['int', 5]]),
+    # one message creating two objects
+    _u('2', True, 'zz_u', 7, 'create_pair', [['new', 'zz_l', 20], ['new', 'zz_r', 21]]),
 ]
 
 
@@ -265,11 +267,12 @@ OBJ_ATOMS = [
     ('1a', lambda o: o[1:] == (1, 0)),
     # the text before and after the `*` would have to overlap: `wl_surface` is not `wl_` + anything + `_surface`
     ('wl_*_surface', o_type('wl_*_surface')),
+    ('zz_r', o_type('zz_r')),
 ]
 # which object atoms are "type-like" (a bare type against a typed nil is not decided by the documentation)
 TYPE_LIKE = {'wl_surface', 'wl_*', '*', 'wl_surface@', '[wl_surface, 3]', '[wl_* ! wl_surface]', 'wl_*face', '*surface',
              'x*', 'xdg_*', '', 'wl_*fac', '*_surf', 'wl_s*e', '[6, [wl_* ! wl_pointer]]', '[[wl_surface ! 4b], 4b]', 'wl_display',
-             'wl_*_surface'}
+             'wl_*_surface', 'zz_r'}
 
 # name atoms: (text or None when the `.name` part is absent, predicate, names the pseudo messages explicitly?)
 NAME_ATOMS = [
@@ -405,6 +408,9 @@ ARG_ATOMS = [
     ('("a  b")', argl([a_str('a  b')])),
     ('("a b")', argl([a_str('a b')])),
     ('(title="a  b")', argl([a_and(a_named('title'), a_str('a  b'))])),
+    # several exclusions: any one of them excludes
+    ('(! x=0, 3)', argl([], [a_and(a_named('x'), a_int(0)), a_int(3)])),
+    ('(0 ! 2, 272)', argl([a_int(0)], [a_int(2), a_int(272)])),
 ]
 
 
